@@ -377,7 +377,11 @@ class QvmCode(BaseCode):
                 prev1_type = expr.Type.from_type_char(prev1.type_char)
                 value = expr.NumericLiteral(value, prev1_type)
                 unary_expr = expr.UnaryOp(value, op)
-                value = unary_expr.eval()
+                try:
+                    value = unary_expr.eval()
+                except OverflowError:
+                    i += 1
+                    continue
 
                 self._instrs[i-1] = QvmInstr(
                     f'push{prev1.type_char}', value)
